@@ -268,13 +268,14 @@ async fn current_manifest_path(
 
     let manifest_files = object_store.list(Some(base.child(VERSIONS_DIR)));
 
+    // Only names that carry an attached version are candidates: detached manifests
+    // (`d{version}.manifest`) and their staging files are detected as V2 but have no
+    // parseable version, so the `parse_version(..).unwrap()` calls below are safe.
     let mut valid_manifests = manifest_files.try_filter_map(|res| {
-        if let Some(scheme) = ManifestNamingScheme::detect_scheme(res.location.filename().unwrap())
-        {
-            future::ready(Ok(Some((scheme, res))))
-        } else {
-            future::ready(Ok(None))
-        }
+        let filename = res.location.filename().unwrap();
+        let scheme = ManifestNamingScheme::detect_scheme(filename)
+            .filter(|scheme| scheme.parse_version(filename).is_some());
+        future::ready(Ok(scheme.map(|scheme| (scheme, res))))
     });
 
     let first = valid_manifests.next().await.transpose()?;
@@ -318,19 +319,20 @@ async fn current_manifest_path(
                 e_tag: meta.e_tag,
             })
         }
-        // If the first valid manifest we see if V1, assume for now that we are
-        // using V1 naming scheme for all manifests. Since we are listing the
-        // directory anyways, we will assert there aren't any V2 manifests.
+        // Otherwise (V1 naming, or a store whose listing is not lexically ordered) scan
+        // the whole directory for the highest version. Since we are listing the directory
+        // anyways, we assert that all manifests use the same naming scheme.
         (Some((scheme, meta)), _) => {
             let mut current_version = scheme
                 .parse_version(meta.location.filename().unwrap())
                 .unwrap();
             let mut current_meta = meta;
+            let first_scheme = scheme;
 
             while let Some((scheme, meta)) = valid_manifests.next().await.transpose()? {
-                if matches!(scheme, ManifestNamingScheme::V2) {
+                if scheme != first_scheme {
                     return Err(Error::Internal {
-                        message: "Found V2 manifest in a V1 manifest directory".to_string(),
+                        message: "Found V1 and V2 manifests in the same directory".to_string(),
                         location: location!(),
                     });
                 }
